@@ -155,6 +155,7 @@ func (v *fnVC) instr(b *ssa.BasicBlock, in ssa.Instruction, st *State) {
 		e.assume(mk(sapp("not", sapp("=", t.S, "nilFn")), sBool))
 		t.GoT = i.Type()
 		v.vals[i] = t
+		v.recordClosure(i, t, st)
 	case *ssa.Range:
 		v.rangeInit(i, st)
 	case *ssa.Next:
@@ -231,6 +232,10 @@ func intTo64(t *T) *T {
 
 func (v *fnVC) setEdge(from, to *ssa.BasicBlock, cond *T, st *State) {
 	name := fmt.Sprintf("E$%d$%d", from.Index, to.Index)
+	if v.parent != nil {
+		v.e.fresh++
+		name = fmt.Sprintf("E$c%d$%d$%d", v.e.fresh, from.Index, to.Index)
+	}
 	if v.e.declSeen[name] {
 		// two edges between the same pair (if with identical successors)
 		prev := v.edge[[2]int{from.Index, to.Index}]
@@ -359,26 +364,32 @@ func (v *fnVC) store(addr ssa.Value, val *T, st *State, pos token.Pos) {
 // frameCheck: a write to an object that existed at entry must be covered by
 // the function's assigns clause (only when the contract declares one).
 func (v *fnVC) frameCheck(what string, ref *T, pos token.Pos, st *State) {
-	if v.ct == nil || !v.ct.HasAsg {
+	// an inlined closure body writes on behalf of the enclosing function
+	rv := v
+	if v.parent != nil && v.ct == nil {
+		rv = v.root()
+	}
+	ct := rv.ct
+	if ct == nil || !ct.HasAsg {
 		return
 	}
-	for _, a := range v.ct.Assigns {
+	for _, a := range ct.Assigns {
 		if a == "*" {
 			return
 		}
 	}
 	// allowed: fresh objects, or objects named by an assigns location
 	allowed := []*T{mk(sapp(">=", ref.S, v.entry.next().S), sBool)}
-	x := v.exFor(v.entry, v.entry, nil)
-	for _, a := range v.ct.Assigns {
-		loc, ok := v.assignRef(x, a, what)
+	x := rv.exFor(v.entry, v.entry, nil)
+	for _, a := range ct.Assigns {
+		loc, ok := rv.assignRef(x, a, what)
 		if ok {
 			allowed = append(allowed, mk(sapp("=", ref.S, loc.S), sBool))
 		}
 	}
 	n := v.callOrd["frame"]
 	v.callOrd["frame"] = n + 1
-	v.oblige("frame", fmt.Sprintf("frame#%d", n), v.ct.Props, "write to "+what+" is inside `assigns`", v.pos(pos), v.reachNow(), tOr(allowed...), st)
+	v.oblige("frame", fmt.Sprintf("frame#%d", n), ct.Props, "write to "+what+" is inside `assigns`", v.pos(pos), v.reachNow(), tOr(allowed...), st)
 }
 
 // assignRef evaluates an assigns location to the reference of the written
@@ -437,6 +448,17 @@ func (v *fnVC) unop(i *ssa.UnOp, st *State) {
 		t := v.load(i.X, i.Type(), lst)
 		r := v.bind(i, t)
 		v.assumeWellFormed(r, st)
+		if strings.HasPrefix(t.S, "(select H0$") && r.Sort.Kind == KRef {
+			// read from a heap untouched since function entry at an object that existed at
+			// entry: the value read existed at entry as well
+			base := v.val(i.X)
+			if ai, ok := v.addrs[i.X]; ok && ai.kind == "field" {
+				base = ai.base
+			}
+			if base.Sort.Kind == KRef {
+				v.e.assume(tImp(v.reachNow(), mk(sapp("=>", sapp("<", base.S, v.entry.next().S), sapp("<", r.S, v.entry.next().S)), sBool)))
+			}
+		}
 	case token.NOT:
 		v.bind(i, tNot(v.val(i.X)))
 	case token.SUB:
